@@ -4,8 +4,10 @@ From TT Require Import Lib.Base Model.Router Spec.C18 Corr.C18 Proof.C18.
 
 (* The model meets the whole statement for every router configuration and every history of
    add_rule (accepted or rejected) / startTestRun / stopTestRun / status calls (any order, any
-   number of rules, duplicate keys and shared sinks included); wf only asks that the sinks exist
-   and that no route code is the empty string. *)
+   number of rules, re-mapped keys and shared sinks included); wf asks that the sinks exist, that no
+   route code is the empty string, and that no sink object is registered for startTestRun/stopTestRun
+   more than once (there "once per run" is ambiguous - per sink or per registration -: outside the
+   quantifier). *)
 Theorem C18_holds : forall i : input, wf i -> spec_okb i (model i) = true.
 Proof. exact model_meets_spec. Qed.
 Print Assumptions C18_holds.
@@ -79,15 +81,14 @@ Proof.
 Qed.
 Print Assumptions C18_strings.
 
-(* startTestRun / stopTestRun, for EVERY rule set and history (re-mapped keys, shared sinks, whatever the
-   order of add_rule, startTestRun and stopTestRun): the start/stop calls sink s receives at call k are one
-   startTestRun (stopTestRun) PER REGISTRATION of s made before k - as the fallback of a router built with
-   do_start_stop_run, or by an earlier add_rule(s, .., do_start_stop_run=True) - when the call is
-   startTestRun (stopTestRun); one startTestRun when the call is an add_rule that registers s and a run is
-   in progress; nothing in every other case.  In particular no add_rule - re-mapping or not - ever stops a
-   sink or takes a registration away: a sink whose rule was re-mapped keeps receiving start/stop, and a sink
-   is never stopped while a rule still routes to it other than by the caller's stopTestRun. *)
-Theorem C18_start_stop_count : forall i, wf i -> forall k o so s,
+(* MODEL-LEVEL, for arbitrary rule sets (wf_base: also sinks registered several times): the start/stop calls
+   sink s receives at call k are one startTestRun (stopTestRun) PER REGISTRATION of s made before k when the
+   call is startTestRun (stopTestRun); one startTestRun when the call is an add_rule that registers s and a run
+   is in progress; nothing in every other case.  The multiplicity for >= 2 registrations of one sink object is
+   the current code's choice (one _sinks entry per registration), NOT the statement's: such rule sets are outside
+   wf and the check does not judge them.  What this says for every rule set: no add_rule - re-mapping or not -
+   ever stops a sink or takes a registration away. *)
+Theorem C18_start_stop_count : forall i, wf_base i -> forall k o so s,
   nth_error (ops i) k = Some o -> nth_error (o_steps (model i)) k = Some so -> s < n_sinks i ->
   let past := firstn k (ops i) in
   filter is_start_stop (nth s (s_new so) []) =
@@ -101,10 +102,12 @@ Theorem C18_start_stop_count : forall i, wf i -> forall k o so s,
 Proof. exact start_stop_count. Qed.
 Print Assumptions C18_start_stop_count.
 
-(* "once per run": for a sink that was asked to receive start/stop at most once (reg_once; it may serve any
-   number of rules, be the fallback as well, and its rules may be re-mapped) the above reads: exactly one
-   startTestRun (stopTestRun) at every startTestRun (stopTestRun) after its registration. *)
-Theorem C18_start_stop : forall i, wf i -> forall k o so s, reg_once i s ->
+(* "once per run", inside the quantifier (wf: every sink registered at most once; it may serve any number of
+   rules, be the fallback as well, and its rules may be re-mapped): exactly one startTestRun (stopTestRun) at
+   every startTestRun (stopTestRun) after the sink's registration, one startTestRun at once when it is registered
+   during a run, nothing else - in particular a sink whose rule is re-mapped is not stopped and keeps its
+   registration, and a sink is never stopped while a rule still routes to it except by the caller's stopTestRun. *)
+Theorem C18_start_stop : forall i, wf i -> forall k o so s,
   nth_error (ops i) k = Some o -> nth_error (o_steps (model i)) k = Some so -> s < n_sinks i ->
   let past := firstn k (ops i) in
   filter is_start_stop (nth s (s_new so) []) =
@@ -124,7 +127,7 @@ Print Assumptions C18_start_stop.
    startTestRun at once if a run is in progress and from then on exactly the caller's starts and
    stops, in order (so one start and one stop per run, including the stop of the run it joined) -
    whether or not its rule is re-mapped later and whatever other rules it serves *)
-Theorem C18_start_stop_log : forall i, wf i -> forall s, reg_once i s -> s < n_sinks i ->
+Theorem C18_start_stop_log : forall i, wf i -> forall s, s < n_sinks i ->
   let log := ss_log s (o_steps (model i)) in
   (count s (registered i (ops i)) = 0 -> log = [])
   /\ (fb i = Some s -> fb_ss i = true -> log = flat_map ss_of_op (ops i))
@@ -133,8 +136,11 @@ Theorem C18_start_stop_log : forall i, wf i -> forall s, reg_once i s -> s < n_s
 Proof. exact start_stop_log. Qed.
 Print Assumptions C18_start_stop_log.
 
-(* the earlier hypothesis (sinks of different rules and the fallback distinct, one rule per key) is a
-   special case *)
+(* wf = the base conditions + every sink registered at most once; the earlier hypothesis (sinks of different
+   rules and the fallback distinct, one rule per key) is a special case *)
+Theorem C18_wf_once : forall i, wf i -> wf_base i /\ forall s, reg_once i s.
+Proof. exact (fun i H => conj (wf_is_base i H) (wf_once i H)). Qed.
+Print Assumptions C18_wf_once.
 Theorem C18_distinct_once : forall i, wf_distinct i -> forall s, reg_once i s.
 Proof. exact distinct_once. Qed.
 Print Assumptions C18_distinct_once.
